@@ -198,6 +198,12 @@ func (r *RegistryImpl) Begin(ctx context.Context, engine interface{}, readOnly b
 		var tx Transaction
 		var err error
 
+		// Always hand the outcome to the caller. The channel is buffered, so this
+		// never blocks; a caller that has timed out rolls a late transaction back.
+		defer func() {
+			resultCh <- txResult{tx, err}
+		}()
+
 		// Check for different types of engines
 		if engine != nil {
 			// Just directly try to get a transaction, without complex type checking
@@ -231,18 +237,6 @@ func (r *RegistryImpl) Begin(ctx context.Context, engine interface{}, readOnly b
 			err = fmt.Errorf("nil engine provided to transaction registry")
 		}
 
-		verifhook.At("reg.begin.got")
-		select {
-		case resultCh <- txResult{tx, err}:
-			// Successfully sent result
-			verifhook.At("reg.begin.sent")
-		case <-timeoutCtx.Done():
-			// Context timed out, but try to rollback if we got a transaction
-			if tx != nil {
-				tx.Rollback()
-			}
-			verifhook.At("reg.begin.late")
-		}
 	}()
 
 	// Wait for result or timeout
@@ -273,6 +267,15 @@ func (r *RegistryImpl) Begin(ctx context.Context, engine interface{}, readOnly b
 
 	case <-timeoutCtx.Done():
 		verifhook.At("reg.begin.timeout")
+
+		// The lock request is still in flight and may be granted later: roll that
+		// transaction back then, or it would hold the database lock forever
+		go func() {
+			if result := <-resultCh; result.tx != nil {
+				result.tx.Rollback()
+			}
+		}()
+
 		return "", fmt.Errorf("transaction creation timed out: %w", timeoutCtx.Err())
 	}
 }
